@@ -49,7 +49,9 @@ ZoneSigned == zone \in {"signed", "signed-same", "nsec3"}
 Negative == qk \in {"nodata", "nx"}
 NeedsProof == qk \in {"nodata", "nx", "wild"}     \* the answer rests on NSEC/NSEC3 records
 
-Positions == {"referral", "dnskey", "answer"}
+\* "rootref" is the ROOT's referral for the (always signed) parent of the target zone: the one
+\* delegation whose DS is authenticated by the trust anchors directly instead of by a parent DS
+Positions == {"rootref", "referral", "dnskey", "answer"}
 K(pos) == tamper[pos]        \* the tampering applied at a position ("none" = untouched)
 
 (* Which validation attribute a tampering destroys at its position.
@@ -68,6 +70,10 @@ K(pos) == tamper[pos]        \* the tampering applied at a position ("none" = un
    roguekey  : an attacker's key added to the DNSKEY RRset, the RRset re-signed with THAT key only
                (the DS-matched key is still in the set)  -> RFC 4035 5.2: the apex DNSKEY RRset must be
                authenticated by a signature of the key the DS refers to, so the set is bogus
+   fakedname : the answer is replaced by a forged CNAME "justified" by an UNSIGNED DNAME owned by an
+               ancestor outside the signer zone, placed in the authority section (where foreign records are
+               tolerated) -> only a DNAME of the signer zone may vouch for a synthesised CNAME, so the
+               forged CNAME needs its own signature and has none that verifies
    roguesig  : answer data altered and re-signed, signer name = the zone, with the attacker's key
                -> verifies only if that key was accepted into the zone's key set (roguekey)
 *)
@@ -91,7 +97,8 @@ Referral ==
   /\ pc = "referral"
   /\ LET k == K("referral") IN
      dsState' =
-       IF ZoneSigned THEN
+       IF K("rootref") # "none" THEN "bogus"   \* the signed parent itself is no longer authenticated
+       ELSE IF ZoneSigned THEN
          (IF BreaksSig(k) \/ k \in {"strip", "swapds"} THEN "bogus"
           ELSE IF k = "dropds" THEN "bogus"      \* no DS and no proof of its absence
           ELSE "secure")
@@ -121,7 +128,7 @@ Answer ==
        ELSE IF keyState = "none" THEN     \* provably insecure zone: data accepted unsigned;
          "insecure"                       \* foreign answer records are dropped, not fatal (C07's filter)
        ELSE
-         (IF BreaksSig(k) \/ k \in {"strip", "inject", "roguesig"} THEN "bogus"
+         (IF BreaksSig(k) \/ k \in {"strip", "inject", "roguesig", "fakedname"} THEN "bogus"
           ELSE IF NeedsProof /\ k \in {"dropproof", "foreignproof"} THEN "bogus"
           ELSE "secure")
   /\ pc' = "reply"
@@ -155,6 +162,7 @@ Done == pc = "done"
 EffectiveAt(pos) ==
   LET k == K(pos) IN
   CASE k \in {"none", "clonetag"} -> FALSE
+    [] pos = "rootref" -> TRUE           \* the parent is signed in every configuration
     [] pos = "referral" /\ k \in {"dropproof", "foreignproof"} -> ~ZoneSigned
     [] pos = "referral" /\ k \in {"dropds", "swapds"} -> ZoneSigned
     [] pos = "dnskey" -> ZoneSigned
@@ -167,7 +175,7 @@ Effective == \E pos \in Positions : EffectiveAt(pos)
 (* is the path, as delivered, authentic?  (the RFC 4035 verdict) *)
 Untampered == ~Effective
 PathSecure == anchor /\ ZoneSigned /\ Untampered
-PathInsecureProven == anchor /\ ~ZoneSigned /\ ~EffectiveAt("referral")
+PathInsecureProven == anchor /\ ~ZoneSigned /\ ~EffectiveAt("referral") /\ ~EffectiveAt("rootref")
 
 (* the only legal outcomes with CD=0: SERVFAIL, or exactly what the signer published *)
 TruthOrServfail ==
